@@ -54,7 +54,7 @@ META = dict(
          "exhaustive small scopes and random deep grammars.",
     note="Trusted: Lean kernel; axioms propext/Classical.choice/Quot.sound; the parse model (transcription of core.py, "
          "node attributes extracted from the live objects, validated differentially on every run; for the terminals "
-         "Empty, NoMatch, Literal, _SingleCharLiteral, StringEnd, LineEnd, WordStart, WordEnd the transcription is not "
+         "Empty, NoMatch, Literal, _SingleCharLiteral, StringEnd, LineEnd, LineStart (parseImpl), WordStart, WordEnd the transcription is not "
          "trusted but PROVED equal - src_*_eq in PPProofs/Props/LeafSrc.lean, IndexError included - to the Lean "
          "translation of the live parseImpl source that harness/py2lean.py regenerates on every run, modulo the "
          "translator and PPModel/Base/PyStr.lean as the reading of CPython len/index/startswith/in, validated against "
@@ -84,6 +84,7 @@ THEOREMS = [
 LEAF_SRC_THEOREMS = [
     "PP.Parse.src_empty_eq", "PP.Parse.src_noMatch_eq", "PP.Parse.src_lit_eq", "PP.Parse.src_lit1_eq",
     "PP.Parse.src_stringEnd_eq", "PP.Parse.src_lineEnd_eq", "PP.Parse.src_wordStart_eq", "PP.Parse.src_wordEnd_eq",
+    "PP.Parse.src_lineStart_eq",
 ]
 THEOREMS = THEOREMS + LEAF_SRC_THEOREMS
 
@@ -95,7 +96,8 @@ def leaf_source_tie(ctx, pp):
     name = "leaf parseImpl methods lie in the translatable subset (PyLite)"
     try:
         generated["PPProofs/Props/Gen/LeafSrc.lean"] = py2lean.translate_impls(
-            py2lean.leaf_classes(pp), py2lean.LEAF_ATTRS, "PP.Gen.LeafSrc", "pyparsing/core.py")
+            py2lean.leaf_classes(pp), py2lean.LEAF_ATTRS, "PP.Gen.LeafSrc", "pyparsing/core.py",
+            py2lean.leaf_calls(), py2lean.LEAF_IMPORTS)
         ctx.obligation(name, True, "translated: " + ", ".join(c.__name__ for c in py2lean.leaf_classes(pp)))
     except (py2lean.Untranslatable, OSError, TypeError, SyntaxError, IndexError, AttributeError) as ex:
         ctx.obligation(name, False, str(ex)[:300])
